@@ -490,12 +490,108 @@ def stall_part(res, rng, stalls):
         shutil.rmtree(wd, ignore_errors=True)
 
 
+def quiet_part(res, rng, nsessions):
+    """The operator switches the message log off through the control port (/status/loglevel/0), then clients come and
+    go: the relay must carry on exactly as before.  Own proxy instance."""
+    okb, outb, binary = common.build_app("proxy")
+    if not okb:
+        return
+    wd = os.path.join(common.WORK, "C19quiet")
+    shutil.rmtree(wd, ignore_errors=True)
+    os.makedirs(os.path.join(wd, "logs"))
+    up = Upstream()
+    up.start()
+    pport, cport = free_port(), free_port()
+    cfg = os.path.join(wd, "proxy.json")
+    with open(cfg, "w") as f:
+        json.dump(dict(remote_host="127.0.0.1:%d" % up.port, proxy_host="127.0.0.1", proxy_port=pport,
+                       control_host="127.0.0.1", control_port=cport, record_messages=True,
+                       message_log_directory=os.path.join(wd, "logs")), f)
+    proc = subprocess.Popen([binary, "-c", cfg], cwd=wd, stdout=subprocess.DEVNULL, stderr=subprocess.DEVNULL)
+    try:
+        for _ in range(100):
+            try:
+                socket.create_connection(("127.0.0.1", pport), timeout=0.2).close()
+                break
+            except OSError:
+                time.sleep(0.05)
+        time.sleep(0.3)
+        for sidx in range(nsessions):
+            if sidx == 1:
+                try:
+                    urllib.request.urlopen("http://127.0.0.1:%d/status/loglevel/0" % cport, timeout=5).read()
+                    res.count("message log switched off through the control port")
+                except Exception:  # noqa
+                    res.count("loglevel request failed")
+            if sidx == nsessions - 1:
+                try:
+                    urllib.request.urlopen("http://127.0.0.1:%d/status/loglevel/1" % cport, timeout=5).read()
+                except Exception:  # noqa
+                    pass
+            cdata = b"".join(gen.rand_frame(rng, small=True) for _ in range(rng.randint(3, 8))) + gen.rand_junk(rng)
+            sdata = b"ICY 200 OK\r\n\r\n" + gen.rand_bytes(rng, 300)
+            with up.lock:
+                up.script = [sdata]
+                up.received.clear()
+            res.evaluations += 1
+            res.count("relay session with the message log switched " + ("off" if 1 <= sidx < nsessions - 1 else "on"))
+            case = dict(kind="log switched off/on by the operator", session=sidx, client_bytes=len(cdata), client_hex=cdata[:120].hex())
+            try:
+                cl = socket.create_connection(("127.0.0.1", pport), timeout=3)
+            except OSError as e:
+                res.add_violation(dict(case, error=str(e), proxy_alive=proc.poll() is None), "the proxy no longer accepts clients")
+                break
+            got = bytearray()
+            try:
+                cl.settimeout(5)
+                for ch in chunked(rng, cdata):
+                    cl.sendall(ch)
+                t_end = time.time() + 6
+                cl.settimeout(0.3)
+                while time.time() < t_end:
+                    with up.lock:
+                        n = len(up.received)
+                    if n >= len(cdata) and len(got) >= len(sdata):
+                        break
+                    try:
+                        b = cl.recv(65536)
+                        if b:
+                            got.extend(b)
+                    except socket.timeout:
+                        pass
+                    except OSError:
+                        break
+            except OSError as e:
+                res.add_violation(dict(case, error=str(e)), "sending through the proxy failed")
+            with up.lock:
+                recvd = bytes(up.received)
+            if recvd != cdata:
+                res.add_violation(dict(case, server_received=len(recvd), proxy_alive=proc.poll() is None),
+                                  "the upstream server did not receive exactly the client's bytes")
+            if bytes(got) != sdata:
+                res.add_violation(dict(case, client_received=len(got)), "the client did not receive exactly the server's bytes")
+            res.nontrivial.add(("quiet", sidx))
+            try:
+                cl.close()
+            except OSError:
+                pass
+            time.sleep(0.15)
+    finally:
+        up.stop = True
+        proc.kill()
+        try:
+            proc.wait(timeout=5)
+        except Exception:
+            pass
+        shutil.rmtree(wd, ignore_errors=True)
+
+
 def run(res, args):
     res.rule = ("report: ReportFeed.Status() in-process with crafted client/server buffers and queue contents (frames and "
                 "non-RTCM data whose bytes read as HTML); every traffic-derived hole of the page template must be free of '<' "
                 "and '>' and the message list must be the escaped displays; relay: the built proxy binary between a test "
                 "upstream server and a test client on loopback, sessions of valid frames, CRC-valid malformed frames, "
-                "mixed/hostile bytes, NTRIP-like text, many chunkings, both directions; sessions of 6 MB each way in which both peers stop reading for 6-13 s and then read everything; non-trivial = markup bytes in the "
+                "mixed/hostile bytes, NTRIP-like text, many chunkings, both directions; sessions after the operator has switched the message log off through the control port; sessions of 6 MB each way in which both peers stop reading for 6-13 s and then read everything; non-trivial = markup bytes in the "
                 "traffic / sessions over 50 bytes")
     res.assumptions = ["TCP, TLS and statusreporter are the runtime; one client session at a time",
                        "relay integrity depends on the parser never panicking (C07); the dependency is explicit"]
@@ -509,7 +605,10 @@ def run(res, args):
     rng_stall = common.rng_for(res.seed, "c19stall")
     st = threading.Thread(target=stall_part, args=(res, rng_stall, [7] if res.tier == "quick" else [6, 9, 13]))
     st.start()
+    qt = threading.Thread(target=quiet_part, args=(res, common.rng_for(res.seed, "c19quiet"), 5 if res.tier == "quick" else 20))
+    qt.start()
     relay_part(res, rng, 40 * mult)
     st.join(timeout=400)
+    qt.join(timeout=400)
     res.traces = res.distribution.get("relay-session", 0)
     return res.finish()
